@@ -1273,12 +1273,16 @@ def bs_lookback_delta(
     See :func:`pfhedge.nn.BSLookbackOption.delta` for details.
     """
     # TODO(simaki): Calculate analytically
+    # (all inputs in their common shape, so that the gradient is element-wise)
+    s, m, t, v = broadcast_all(
+        log_moneyness, max_log_moneyness, time_to_maturity, volatility
+    )
     return autogreek.delta(
         bs_lookback_price,
-        log_moneyness=log_moneyness,
-        max_log_moneyness=max_log_moneyness,
-        time_to_maturity=time_to_maturity,
-        volatility=volatility,
+        log_moneyness=s,
+        max_log_moneyness=m,
+        time_to_maturity=t,
+        volatility=v,
         strike=strike,
     )
 
@@ -1295,12 +1299,16 @@ def bs_lookback_gamma(
     See :func:`pfhedge.nn.BSLookbackOption.gamma` for details.
     """
     # TODO(simaki): Calculate analytically
+    # (all inputs in their common shape, so that the gradient is element-wise)
+    s, m, t, v = broadcast_all(
+        log_moneyness, max_log_moneyness, time_to_maturity, volatility
+    )
     return autogreek.gamma(
         bs_lookback_price,
-        log_moneyness=log_moneyness,
-        max_log_moneyness=max_log_moneyness,
-        time_to_maturity=time_to_maturity,
-        volatility=volatility,
+        log_moneyness=s,
+        max_log_moneyness=m,
+        time_to_maturity=t,
+        volatility=v,
         strike=strike,
     )
 
